@@ -902,6 +902,12 @@ class RTCPeerConnection(AsyncIOEventEmitter):
         description.type = sessionDescription.type
         self.__validate_description(description, is_local=False)
 
+        # m-line indices which createOffer() handed out provisionally to transceivers
+        # that are still not associated with a section are void
+        for t in self.__transceivers:
+            if t.mid is None:
+                t._set_mline_index(None)
+
         # apply description
         iceCandidates: dict[RTCIceTransport, sdp.MediaDescription] = {}
         trackEvents = []
